@@ -32,7 +32,7 @@ Sel(kind, n) ==
     [] kind = "head"  -> [j \in 1..(IF n > 0 THEN n - 1 ELSE 0) |-> j]        \* t[:-1]
     [] kind = "step"  -> [j \in 1..((n + 1) \div 2) |-> 2 * j - 1]            \* t[::2]
     [] kind = "rev"   -> [j \in 1..n |-> n + 1 - j]                           \* t[::-1]
-    [] kind = "mask"  -> [j \in 1..(n \div 2) |-> 2 * j]                      \* t[[False, True, False, ...]]
+    [] kind \in {"mask", "lmask"} -> [j \in 1..(n \div 2) |-> 2 * j]          \* t[[False, True, False, ...]] as a NumPy array / a plain Python list
     [] kind = "list"  -> IF n = 0 THEN <<>> ELSE <<n, 1, 1>>                  \* t[[-1, 0, 0]]  (repeats, reordering)
     [] kind = "empty" -> <<>>                                                 \* t[0:0]
 Pick(s, idx) == [j \in DOMAIN idx |-> s[idx[j]]]
